@@ -37,8 +37,9 @@ class Sched:
     (index mod n)-th other runnable thread.  When the running thread blocks
     or ends, the runnable thread with the smallest priority runs."""
 
-    def __init__(self, plan, max_steps=20000):
+    def __init__(self, plan, max_steps=20000, traced=None):
         self.plan = dict(plan)
+        self.traced = tuple(traced) if traced else TRACED_SUFFIXES
         self.threads = []
         self.cur = None
         self.step = 0
@@ -75,7 +76,7 @@ class Sched:
         if event != 'call':
             return None
         fn = frame.f_code.co_filename
-        if fn.endswith(TRACED_SUFFIXES):
+        if fn.endswith(self.traced):
             return self._local
         return None
 
